@@ -808,7 +808,7 @@ func (u *Unit) callByContract(call *ast.CallExpr, f *types.Func, con *Contract, 
 			if isErrorLike(sig.Results().At(len(res)-1).Type()) && last.S == "Int" {
 				st.errs = append(st.errs, errRec{term: ite(ign, "0", last.T), from: key})
 			}
-		} else {
+		} else if call == nil || !u.errDropSites[call] {
 			u.recordErrs(st, res, sig, key)
 		}
 	}
